@@ -387,6 +387,7 @@ def run(ctx, res):
         "NOT decided."
     )
     r182(ctx, res)
+    r185_fresh_constants(ctx, res)
     try:
         r181(ctx, res)
     except AnalysisError as e:
@@ -395,7 +396,6 @@ def run(ctx, res):
         else:
             raise
     r183(ctx, res)
-    r185_fresh_constants(ctx, res)
     r186_scale_covariant(ctx, res)
     k = check_acos(ctx, res, ctx.repo.fn("Vector.angle"), "R18.4")
     ctx.require(res, "R18.4", k, 1, "acos sites")
